@@ -148,7 +148,7 @@ func runRelayScenario(seed uint64, size int, t *Trace) error {
 			latest = ts
 		}
 		c.VerifSendReport(gcas, client.EnergyRecord{Timeslot: ts, Energy: signExt32(v)})
-		time.Sleep(2 * time.Millisecond)
+		sink.settle(3*time.Millisecond, 100*time.Millisecond)
 		for _, p := range sink.take() {
 			switch r.pick([]int{45, 30, 10, 15}) {
 			case 0: // lost
@@ -172,7 +172,7 @@ func runRelayScenario(seed uint64, size int, t *Trace) error {
 		}
 	}
 	// late originals still in flight count as lost
-	time.Sleep(30 * time.Millisecond)
+	sink.settle(40*time.Millisecond, 600*time.Millisecond)
 	for range sink.take() {
 		t.Count("relay.lost")
 	}
@@ -195,7 +195,7 @@ func runRelayScenario(seed uint64, size int, t *Trace) error {
 		sink.take()
 		t0 := time.Now().Unix()
 		ok := c.VerifSyncRound(latest)
-		time.Sleep(30 * time.Millisecond)
+		sink.settle(40*time.Millisecond, 600*time.Millisecond)
 		if time.Now().Unix() != t0 {
 			t.Count("relay.clock-ambiguous")
 		}
